@@ -145,7 +145,7 @@ Definition check_301 (fs : list field) : verdict :=
         | TExc e => judge_doc e ec 2 out 1
         | TErr c =>
           if negb (ec =? 0) then VOk
-          else if c =? E_UNKNOWN then VBad 6 []
+          else if (c =? E_UNKNOWN) || (c =? E_NONFINITE) then VBad 6 []
           else match json_parse out with Some _ => VDrift 32 | None => VBad 7 [] end
         end
       end
